@@ -144,8 +144,12 @@ func c15lClass(b []byte, edns bool) byte {
 	return '?'
 }
 
+// c15lUDPDst: where the UDP clients send. 127.0.0.2 when the udp listener is bound to the wildcard address with
+// multi_routes (mr=1): the socket is connected, so only a reply that leaves from 127.0.0.2 reaches the client.
+var c15lUDPDst = net.IPv4(127, 0, 0, 1)
+
 func c15lUDP(src netip.Addr, port int) string {
-	c, err := net.DialUDP("udp", &net.UDPAddr{IP: src.AsSlice()}, &net.UDPAddr{IP: net.IPv4(127, 0, 0, 1), Port: port})
+	c, err := net.DialUDP("udp", &net.UDPAddr{IP: src.AsSlice()}, &net.UDPAddr{IP: c15lUDPDst, Port: port})
 	if err != nil {
 		return "E"
 	}
@@ -332,6 +336,12 @@ func c15lRunOnce(m map[string]string) (string, time.Duration, bool) {
 			Client:      router.ClientLimiterConfig{Limit: 1, Burst: atoi(m["burst"]), V4Mask: atoi(m["v4"])},
 		},
 	}
+	c15lUDPDst = net.IPv4(127, 0, 0, 1)
+	if m["mr"] == "1" {
+		cfg.Servers[0].Listen = fmt.Sprintf("0.0.0.0:%d", pu)
+		cfg.Servers[0].Udp.MultiRoutes = true
+		c15lUDPDst = net.IPv4(127, 0, 0, 2)
+	}
 	pq := 0
 	if strings.Contains(m["ops"], "q:") { // the DoQ listener only when it is used
 		pq = c15lFreeUDPPort()
@@ -431,6 +441,8 @@ func c15lGen(r *rand.Rand, thorough bool, emit func(c, cat string)) {
 	fixed := []struct{ cs, cat string }{
 		// one /24 runs dry over UDP, its neighbour in the same /24 is refused too, another /24 is served
 		{fmt.Sprintf("glob=0 burst=10 v4=0 ops=u:%s,u:%s,u:%s,u:%s,u:%s,u:%s,u:%s,u:%s", a, a, a, a, a, a2, b, b), "udp-subnets"},
+		// the same on a udp listener bound to the wildcard address with multi_routes (clients talk to 127.0.0.2)
+		{fmt.Sprintf("glob=0 burst=10 v4=0 mr=1 ops=u:%s,u:%s,u:%s,u:%s,u:%s,u:%s,u:%s,u:%s", a, a, a, a, a, a2, b, b), "udp-subnets-multiroutes"},
 		// TCP: connection cost 3, query cost 2, forward 3
 		{fmt.Sprintf("glob=0 burst=12 v4=0 ops=t:%s:4,t:%s:1,t:%s:2", a, a2, b), "tcp-subnets"},
 		// HTTP: 503
